@@ -33,3 +33,4 @@ for c, ln, a, b in zip(cases, lines, impl, res):
             print("  " + ("   " if x == y else ">>>") + " impl ", x[:500])
             if x != y: print("      model ", y[:500])
 print(pid, "cases", len(cases), "bad", bad, "drift", drift)
+sys.exit(1 if bad else 0)
